@@ -283,7 +283,7 @@ pub fn generate(tier: &str, seed: u64, out: &mut Out) {
         }
     }
     // the C16/C17 generators
-    let n = if thorough { 2500 } else { 330 };
+    let n = if thorough { 8000 } else { 1000 };
     for i in 0..n {
         let pts = random_points(&mut r, 12);
         let natural = impl_curve(&CurveCase { mode: 1, pts: pts.clone(), len: None }).map_or(0.0, |c| c.dist());
